@@ -34,7 +34,11 @@ type c11Worker struct {
 type c11Scenario struct {
 	// configured concurrency per scope (0 = not configured)
 	All, IP, Source, Dest int
-	Workers               []c11Worker `json:"workers"`
+	// an additional rate limit (RateN messages per 6 s) in one scope, declared after the concurrency limit of
+	// that scope: a message that passes the concurrency limit and then times out on the rate returns its permit
+	RateScope string      `json:"rate_scope,omitempty"` // "", all, ip, source, destination
+	RateN     int         `json:"rate_n,omitempty"`
+	Workers   []c11Worker `json:"workers"`
 }
 
 func c11Gen(t *rapid.T) c11Scenario {
@@ -42,6 +46,17 @@ func c11Gen(t *rapid.T) c11Scenario {
 	sc := c11Scenario{All: n("all"), IP: n("ip"), Source: n("source"), Dest: n("dest")}
 	if sc.All+sc.IP+sc.Source+sc.Dest == 0 {
 		sc.Dest = 1
+	}
+	if rapid.IntRange(0, 2).Draw(t, "with_rate") == 0 {
+		var scopes []string
+		for k, v := range map[string]int{"all": sc.All, "ip": sc.IP, "source": sc.Source, "destination": sc.Dest} {
+			if v > 0 {
+				scopes = append(scopes, k)
+			}
+		}
+		sort.Strings(scopes)
+		sc.RateScope = rapid.SampledFrom(scopes).Draw(t, "rate_scope")
+		sc.RateN = rapid.IntRange(1, 3).Draw(t, "rate_n")
 	}
 	nw := rapid.SampledFrom([]int{1, 2, 3, 4, 6, 8, 16, 32, 64}).Draw(t, "workers")
 	for i := 0; i < nw; i++ {
@@ -62,6 +77,9 @@ func c11Group(sc c11Scenario) (*Group, error) {
 	add := func(scope string, n int) {
 		if n > 0 {
 			nodes = append(nodes, config.Node{Name: scope, Args: []string{"concurrency", fmt.Sprint(n)}})
+		}
+		if scope == sc.RateScope && sc.RateN > 0 {
+			nodes = append(nodes, config.Node{Name: scope, Args: []string{"rate", fmt.Sprint(sc.RateN), "6s"}})
 		}
 	}
 	add("all", sc.All)
@@ -159,6 +177,20 @@ func c11Run(sc c11Scenario) (vs []ev.V) {
 			}()
 		}
 		wg.Wait()
+		// the rate limiters run refill goroutines: stop them before the bubble ends
+		defer func() {
+			g.global.Close()
+			for _, bs := range []*limiters.BucketSet{g.ip, g.source, g.dest} {
+				if bs != nil {
+					bs.Close()
+				}
+			}
+		}()
+		probeTimeout := 20 * time.Millisecond
+		if sc.RateN > 0 {
+			time.Sleep(time.Minute) // let the rate limiter refill; every probe may have to wait for the next refill as well
+			probeTimeout = 30 * time.Second
+		}
 		// quiescence: the full N can be acquired again in every scope
 		func() {
 			defer func() {
@@ -172,7 +204,10 @@ func c11Run(sc c11Scenario) (vs []ev.V) {
 				}
 				got := 0
 				for i := 0; i < n; i++ {
-					ctx, cancel := context.WithTimeout(context.Background(), 20*time.Millisecond)
+					if sc.RateN > 0 {
+						time.Sleep(7 * time.Second) // one refill interval: TakeMsg itself never waits longer than 5 s
+					}
+					ctx, cancel := context.WithTimeout(context.Background(), probeTimeout)
 					err := take(ctx)
 					cancel()
 					if err != nil {
